@@ -35,10 +35,11 @@ def ctzIter : Nat → List Bool → Nat
 
 def ctz (s : List Bool) : Nat := ctzIter (clog2 (s.length + 1)) s
 
-/-- `PriorityEncoder(w)` (coding.py:86-90): `o = count_trailing_zeros(i)` truncated to
+/-- `PriorityEncoder(w)` (coding.py:86-90): `o = Mux(i == 0, 0, count_trailing_zeros(i))` truncated to
     `Signal(range(w))`, `n = (i == 0)`.  Result `(o, n)`. -/
 def prioEncoder (bits : List Bool) : Nat × Bool :=
-  (ctz bits % 2 ^ rangeWidth bits.length, bits.all (!·))
+  let zero := bits.all (!·)                                    -- i == 0
+  ((if zero then 0 else ctz bits) % 2 ^ rangeWidth bits.length, zero)
 
 /-- `Decoder(w)` / `PriorityDecoder(w)` (coding.py:121-129): `Switch(i)`, `Case(j)` → `o = 1 << j`
     for `j < w`; `If(n)` → `o = 0` (later assignment wins) -/
